@@ -170,6 +170,10 @@ def run_soundness(item):
 def one_model(case, sel, mode, state):
   from vq import isolated
   u = kfpred.unsafe_findings(case)
+  if not u and not os.environ.get('VQ_ISOLATED_CHILD'):
+    pre = engine.run(case)
+    if pre.ok and kfpred.addsub_multiplier_overflow(fb.parse(pre.qbytes)):
+      u = ['addsub-output-scale']
   if u and not os.environ.get('VQ_ISOLATED_CHILD'):
     os.environ['VQ_ISOLATED_CHILD'] = '1'
     try:
@@ -236,6 +240,14 @@ kf_dw_drq_tensorwise = _with_case(kfpred.dw_drq_tensorwise)
 kf_emb_int4_odd_width = _with_case(kfpred.emb_int4_odd_width)
 kf_bmm_const_lhs = _with_case(kfpred.bmm_const_lhs)
 kf_bmm_static_const_channelwise = _with_case(c07.kf_bmm_static_const_channelwise)
+
+
+def kf_addsub_output_scale(spec, violation):
+  case = getattr(violation, 'data', None)
+  if not case:
+    return False
+  out = engine.run(case)
+  return out.ok and kfpred.addsub_multiplier_overflow(fb.parse(out.qbytes))
 
 
 def phases(tier):
